@@ -20,7 +20,26 @@ BASE_ROWS = None
 
 
 def config_csv(repo, variant):
-    """CSV text with one small codec configuration (variants of the test suite's 'minimal' column)."""
+    """CSV text with small codec configurations (variants of the test suite's 'minimal' column).
+    `variant` may name several variants joined by '+': they become several columns of ONE file, so that
+    the serial run handles them in one process while every worker command has a process of its own."""
+    if "+" in variant:
+        import csv, io
+        cols = [list(csv.reader(io.StringIO(config_csv(repo, v)))) for v in variant.split("+")]
+        keys = []
+        for c in cols:
+            for k, _ in c:
+                if k not in keys:
+                    keys.append(k)
+        f = io.StringIO()
+        w = csv.writer(f)
+        for k in keys:
+            w.writerow([k] + [dict(c).get(k, "") for c in cols])
+        return f.getvalue()
+    return _config_csv(repo, variant)
+
+
+def _config_csv(repo, variant):
     import csv, io
     rows = list(csv.reader(open(os.path.join(repo, "tests", "sample_codec_features.csv"))))
     out = []
@@ -38,6 +57,12 @@ def config_csv(repo, variant):
                  frame_height="8", clean_width="8", clean_height="8", source_sampling="interlaced", picture_bytes="48")
     elif variant == "custom_qm":
         d.update(quantization_matrix="3 2 2 1")
+    elif variant == "sibling_par":
+        # same frame size as custom_qm, different pixel aspect ratio / frame rate (process-lifetime caches keyed too coarsely)
+        d.update(quantization_matrix="3 2 2 1", pixel_aspect_ratio_numer="16", pixel_aspect_ratio_denom="11",
+                 frame_rate_numer="25", frame_rate_denom="1")
+    elif variant == "sibling_range":
+        d.update(luma_offset="16", luma_excursion="219", color_diff_offset="128", color_diff_excursion="224")
     elif variant == "lossless_asym":
         d.update(lossless="TRUE", wavelet_index_ho="le_gall_5_3", dwt_depth_ho="1", quantization_matrix="0 0 0 0 0")
         d.pop("picture_bytes", None)
@@ -100,13 +125,14 @@ def run(ctx):
         "concurrently (16 processes) in another shuffled order; trees compared byte for byte; write sets checked pairwise "
         "path-disjoint; evaluations = worker command executions + serial runs; distinct non-trivial = distinct commands that wrote >= 1 file")
     # custom_qm first: a configuration with a non-default option exposes shared-object mutation between generators
-    variants = ctx.pick(["custom_qm"], ["custom_qm", "minimal", "ld_fragments", "fields_420", "lossless_asym"])
+    variants = ctx.pick(["custom_qm+sibling_par"],
+                        ["custom_qm+sibling_par+sibling_range", "minimal", "ld_fragments+fields_420", "lossless_asym"])
     work = os.path.join(ctx.workdir, "gen")
     shutil.rmtree(work, ignore_errors=True)
     os.makedirs(work)
     try:
         for variant in variants:
-            base = os.path.join(work, variant)
+            base = os.path.join(work, variant.replace("+", "_"))
             os.makedirs(base)
             csv_path = os.path.join(base, "codec_features.csv")
             with open(csv_path, "w") as f:
